@@ -103,8 +103,63 @@ def special_c11(tier, seed, th, chk):
         return [r]
 
 
+def special_c20(tier, seed, th, chk):
+    """G10: adversarial large inputs (runs of folds, ignored lines, whitespace, near-miss SIMD blocks, …):
+    cursor travel and block peeks against the proved bounds, and growth of the best-of-N time between two
+    sizes (linear work => time ratio ~ size ratio).  Timing is noisy, so a suspicious ratio is re-measured
+    three times and only reported if it persists."""
+    import subprocess, time
+    small, factor = (32 * 1024, 8) if tier == "quick" else (128 * 1024, 8)
+    out = []
+    for variant in ("dev", "release"):
+        t0 = time.time()
+        binp, err = chk.build_harness(variant)
+        if binp is None:
+            out.append({"family": "cost", "variant": variant, "build_failed": True, "log": err, "fails": [], "stats": {}, "samples": {}, "n": 0, "wall": 0})
+            continue
+        def measure(reps):
+            o = subprocess.run([binp, "cost", str(small), str(factor), str(reps)], capture_output=True, text=True, env=chk.ENV, timeout=1800).stdout
+            rows = {}
+            for l in o.splitlines():
+                t = l.split()
+                if len(t) < 6 or t[0] != "cost":
+                    continue
+                kv = dict(x.split("=", 1) for x in t[3:] if "=" in x)
+                rows.setdefault(t[1], []).append({k: (int(v) if v.isdigit() else v) for k, v in kv.items()})
+            return rows
+        rows = measure(7)
+        fails, samples = [], {}
+        n = 0
+        for fam, rs in rows.items():
+            for r in rs:
+                n += 1
+                size = r["size"]
+                # the NUMBER of block peeks / vector loads is bounded by the length (each scanner call makes
+                # >= 1 byte of progress through its mandatory next!); their total WIDTH is not (a 32-byte
+                # load may be followed by 2 bytes of progress on a short folded line)
+                if r["adv"] > size or r["pk"] + r["l16"] + r["l32"] > size + 8:
+                    fails.append("FAIL C20 hard | cursor travel / block loads exceed the buffer length on an adversarial input | cost %s size=%d (hxharness cost) | %s" % (fam, size, r))
+            if len(rs) == 2 and rs[0]["ns"] > 0:
+                ratio = rs[1]["ns"] / rs[0]["ns"]
+                srat = rs[1]["size"] / rs[0]["size"]
+                samples["cost." + fam] = "size %d -> %d: %.1f us -> %.1f us (x%.1f for x%.1f bytes)" % (rs[0]["size"], rs[1]["size"], rs[0]["ns"] / 1e3, rs[1]["ns"] / 1e3, ratio, srat)
+                if ratio > 3 * srat:
+                    worst = ratio
+                    for _ in range(3):
+                        rr = measure(15).get(fam, [])
+                        if len(rr) == 2 and rr[0]["ns"] > 0:
+                            worst = min(worst, rr[1]["ns"] / rr[0]["ns"])
+                    if worst > 3 * srat:
+                        fails.append("FAIL C20 hard | parsing time grows faster than linearly on an adversarial family (x%.1f time for x%.1f bytes, persisted over 4 measurements) | cost %s (hxharness cost %d %d) | %s" % (worst, srat, fam, small, factor, rs))
+        out.append({"family": "cost(G10)", "variant": variant, "n": n, "fails": fails, "nfails": len(fails),
+                    "stats": {"cases.cost": n, "nontrivial.cost": n}, "samples": samples, "wall": time.time() - t0, "cached": False})
+    return out
+
+
 def special(prop, tier, seed, th, chk):
     import subprocess, json, os, time
+    if prop == "C20":
+        return special_c20(tier, seed, th, chk)
     if prop == "C11":
         return special_c11(tier, seed, th, chk)
     if prop != "C13":
